@@ -4,6 +4,7 @@ From Coq Require Import Uint63.
 From BaoV Require Export Run.RunProto Model.IOSched.
 Open Scope N_scope.
 Notation bytes := (list int).
+Notation mkOb3 := (@mkOb B3).
 
 Definition kind_from (c : N) : io_kind :=
   if c =? 0 then KOther else if c =? 1 then KUnexpectedEof else if c =? 2 then KConnectionReset
@@ -38,7 +39,15 @@ Definition run_sched (a : list N) : list N :=
   let s := sched_setup a in
   let data := ss_data s in
   let t := mkTree (blen B3 data) (ss_bs s) in
-  if ss_driver s =? 4 then
+  if ss_driver s =? 5 then
+    let rd := mkRd B3 (cut_bytes (ss_cut s) data) (ss_evs s) 0 (ss_fail s) in
+    let ob0 := mkOb3 PreMem (zero_hash B3) t (zeros B3 (N.to_nat (outboard_size t))) in
+    match outboard_impl_r B3 t rd ob0 with
+    | (Ok h, ob, _) => [0; dg h; blen B3 (ob_data ob); dg (ob_data ob); 0]
+    | (Err k, ob, _) => [1 + kcode k; 0; blen B3 (ob_data ob); dg (ob_data ob); 0]
+    | (Panic, _, _) => [PANIC]
+    end
+  else if ss_driver s =? 4 then
     let rd := mkRd B3 (cut_bytes (ss_cut s) data) (ss_evs s) 0 (ss_fail s) in
     match outboard_post_order_r B3 t rd with
     | (Ok h, out, _) => [0; dg h; blen B3 out; dg out; 0]
@@ -68,7 +77,20 @@ Definition holds_sched (a o : list N) : bool :=
   let data := ss_data s in
   let t := mkTree (blen B3 data) (ss_bs s) in
   negb (existsb (fun x => x =? PANIC) o) &&
-  if ss_driver s =? 4 then
+  if ss_driver s =? 5 then
+    let src := cut_bytes (ss_cut s) data in
+    let ob0 := mkOb3 PreMem (zero_hash B3) t (zeros B3 (N.to_nat (outboard_size t))) in
+    match ss_fail s, o with
+    | None, [rc; rd_; len; d; after] =>
+        (match outboard_impl B3 t src ob0 with
+         | (Ok h, ob, _) => (rc =? 0) && (rd_ =? dg h) && (d =? dg (ob_data ob))
+         | (Err k, ob, _) => (rc =? 1 + kcode k) && (d =? dg (ob_data ob))
+         | _ => false
+         end) && (after =? 0)
+    | Some (_, kind), [rc; _; len; d; after] => (after =? 0)
+    | _, _ => false
+    end
+  else if ss_driver s =? 4 then
     let src := cut_bytes (ss_cut s) data in
     match ss_fail s, o with
     | None, [rc; rd_; len; d; after] =>
